@@ -83,6 +83,7 @@ void prop(Src& s, Ctx& ctx) {
         ctx.label("built");
         BuildOpts o;
         o.max_payload = ctx.tier ? 1500 : 300;
+        o.spoofed_option_lengths = true;
         Built b = build_packet(s, ctx, o);
         std::string origin = "program: " + b.text();
         if (ctx.logging()) ctx.log(origin);
@@ -99,7 +100,7 @@ void prop(Src& s, Ctx& ctx) {
             for (unsigned k = 0; k < pick; ++k) target = target->inner_pdu();
             switch (s.range(0, 3)) {
                 case 0: apply_setters(*target, s, o, b.program); enforce_capacity(*target, ctx, b.program); break;
-                case 1: option_program(*target, s, b.program); enforce_capacity(*target, ctx, b.program); break;
+                case 1: option_program(*target, s, b.program, true); enforce_capacity(*target, ctx, b.program); break;
                 case 2: {  // replace what is below the target
                     std::string nm;
                     PDU* np = make_layer((unsigned)s.pick(n_layer_classes()), s, o.max_payload, &nm);
